@@ -117,7 +117,38 @@ def fmt(m):
     return "{" + ", ".join(f"{k}={v:#x}" for k, v in m.items()) + "}"
 
 
-def run_programs(run, plist, want=("O1", "O2"), observers=None, jobs=None, cap=None, cls_prefix=""):
+_PAR = {}
+
+
+def _par_worker(chunk_id):
+    from lib import common
+
+    a = _PAR
+    rec = common.Recorder(a["run"])
+    stats = run_programs(rec, a["chunks"][chunk_id], want=a["want"], observers=a["observers"], jobs=a["jobs"],
+                         cap=a["cap"], cls_prefix=a["cls_prefix"], nproc=1)
+    return rec.events, stats
+
+
+def run_programs(run, plist, want=("O1", "O2"), observers=None, jobs=None, cap=None, cls_prefix="", nproc=None):
+    """nproc > 1: programs are split round-robin over forked worker processes (each runs both engines in-process and
+    owns a small solver pool); their recorded events are replayed into `run` in the parent."""
+    from lib import common
+
+    nproc = nproc if nproc is not None else max(1, min(len(plist) // 4, getattr(run.args, "jobs", 8) // 2))
+    if nproc > 1:
+        chunks = [plist[i::nproc] for i in range(nproc)]
+        _PAR.update(run=run, chunks=chunks, want=want, observers=observers, jobs=2, cap=cap, cls_prefix=cls_prefix)
+        total = {}
+        for res in common.parallel_map(_par_worker, list(range(nproc)), nproc):
+            if res and res[0] == "error":
+                run.harness_error("worker crashed: " + res[1].strip().splitlines()[-1])
+                continue
+            events, stats = res
+            common.replay_events(run, events)
+            for k, v in stats.items():
+                total[k] = total.get(k, 0) + v
+        return total
     pool = portfolio.Pool(jobs=jobs or max(2, run.args.jobs // 3), timeout=cap or run.bounds.get("solver_cap_s", 20),
                           inproc_ms=200)
     ctx, stats = {}, {}
